@@ -251,5 +251,31 @@ func cacheMix(capacity, G, ops int, special bool, sweepMs int, seed uint64) stri
 		}
 	}
 	left := sweeperLeft(cancel)
+	// cancelling the construction context ends the sweeper — and nothing else: the cache stays usable (no panic) by
+	// several goroutines, through partition roll-overs, a Resize and a Clear
+	var wgA sync.WaitGroup
+	for g := 0; g < 3; g++ {
+		wgA.Add(1)
+		go func(g int) {
+			defer wgA.Done()
+			defer func() {
+				if r := recover(); r != nil {
+					panics.Add(1)
+				}
+			}()
+			for i := 0; i < 3*c.Capacity()+10; i++ {
+				c.Set(1000000+g*100000+i, i+1)
+				if i%37 == 0 {
+					c.Sweep()
+				}
+			}
+			if g == 0 {
+				c.Resize(c.Capacity() + 7)
+				c.Clear()
+				c.Set(5, 5)
+			}
+		}(g)
+	}
+	wgA.Wait()
 	return fmt.Sprintf("panics=%d badget=%d viewbad=%d swbad=%d missing=0 sweeperleft=%d hang=%d %s", panics.Load(), badget.Load(), vb, swbad, left, hang, raceObs())
 }
